@@ -91,7 +91,7 @@ def arm_protocol(ctx, prog, ap, region, trackers, R, akey, where):
                         for cb2 in [db] + prog.closures_of(db):
                             acc |= tracker_calls(prog, cb2, trackers, "start" if which == "setup" else "end")
                     continue
-                if not cname.endswith("::new"):
+                if not (cname.endswith("::new") or cname in (A.names(prog)["setup_new"], A.names(prog)["cleanup_new"])):
                     ctx.fail("C03.a", "%s:%s-unknown-constructor:%s" % (akey, which, cname), ap.loc(o[1]), "")
                     continue
                 fn_arg = ct["args"][1] if which == "setup" else ct["args"][0]
